@@ -1,3 +1,5 @@
+#[cfg(mos_verif_threads)]
+use mos_simrt::std_shim as std;
 use crate::codegen::symbols::SymbolIndex;
 use crate::codegen::{QueryTraversalStep, Symbol, SymbolTable};
 use crate::parser::code_map::{LineCol, Span, SpanLoc};
